@@ -443,6 +443,7 @@ impl<W: Write> WorkCoalescingCore<Arc<WriteBatch>, Result<u64, SError>> for Writ
 struct FsyncCoalescingCore {
     raw_builder: RawFd,
     synced: u64,
+    failed: bool,
 }
 
 impl WorkCoalescingCore<u64, bool> for FsyncCoalescingCore {
@@ -470,6 +471,11 @@ impl WorkCoalescingCore<u64, bool> for FsyncCoalescingCore {
         FSYNC.click();
         if self.synced >= acc {
             std::iter::repeat(true).take(taken)
+        } else if self.failed {
+            // NOTE:  After an fsync fails the kernel may drop the dirty pages it could not write;
+            // a later fsync that succeeds says nothing about them.  Nothing past `synced` is ever
+            // reported durable again.
+            std::iter::repeat(false).take(taken)
         } else {
             // SAFETY(rescrv):  The worst thing that can happen is we fsync on a fd that's not ours.
             #[cfg(not(target_os = "linux"))]
@@ -483,6 +489,8 @@ impl WorkCoalescingCore<u64, bool> for FsyncCoalescingCore {
             let ret = fsync(self.raw_builder);
             if ret {
                 self.synced = acc;
+            } else {
+                self.failed = true;
             }
             std::iter::repeat(ret).take(taken)
         }
@@ -533,6 +541,7 @@ impl<W: Write + AsRawFd> ConcurrentLogBuilder<W> {
         let fsync_cq = WorkCoalescingQueue::new(FsyncCoalescingCore {
             raw_builder,
             synced: 0,
+            failed: false,
         });
         let poison = AtomicBool::new(false);
         let _phantom_w = std::marker::PhantomData;
